@@ -62,3 +62,58 @@ func VerifC18_StartStop() { c18Scenario(false, false) }
 //verif:unroll 3
 //verif:timeout 300
 func VerifC18_RestartStop() { c18Scenario(true, false) }
+
+var c18Restarts int
+
+// wrapper around schedules.startFirst: marks the instant at which a Restart request is processed
+func c18StartFirst(s *schedules) {
+	zz.Event("restart.processed", c18Restarts)
+	c18Restarts++
+	s.startFirst()
+}
+
+// VerifC18_ScheduleTiming: real elapsed time is modelled (every timer/ticker/ghost event has a wall-clock instant,
+// monotone with the schedule; a timer fires at arm-time + delay unless stopped or re-armed before that instant, and
+// - Go <= 1.22 - a fired value stays in the channel buffer across a later Stop/Reset). Two schedules (0 / 1s and
+// 1min / 10s), Start, an optional Restart, Stop, up to 4 loop rounds of the runner goroutine: the function is invoked
+// at the SECOND schedule's frequency only when at least that schedule's start delay has elapsed since Start and
+// since every Restart that was processed before the invocation (Restart goes back to the first schedule).
+//
+//verif:conc
+//verif:unroll 4
+//verif:timers real
+//verif:timeout 600
+//verif:replace (*$M/internal/raterun.schedules).startFirst c18StartFirst
+func VerifC18_ScheduleTiming() {
+	slow, fast := 0, 0
+	c18Restarts = 0
+	r, err := New(func(freq time.Duration) {
+		if freq == 10*time.Second {
+			zz.Event("fn.slow", slow)
+			slow++
+		} else {
+			zz.Event("fn.fast", fast)
+			fast++
+		}
+	}, []Schedule{{StartDelay: 0, Frequency: time.Second}, {StartDelay: time.Minute, Frequency: 10 * time.Second}})
+	zz.Assert("C18.timing.constructed", err == nil)
+	ctx, cancel := context.WithCancel(context.Background())
+	zz.Event("start.call")
+	r.Start(ctx)
+	if zz.Bool("withRestart") {
+		r.Restart()
+	}
+	r.Stop()
+	cancel()
+	zz.Cover("C18.timing.done")
+	for k := 0; k < 2; k++ {
+		zz.CoverIf("C18.timing.second_schedule_reached", zz.Happened("fn.slow", k))
+		zz.Assert("C18.timing.second_schedule_not_before_its_start_delay", !zz.Happened("fn.slow", k) ||
+			zz.NotBefore("start.call", "fn.slow", 0, k, time.Minute))
+		for j := 0; j < 2; j++ {
+			zz.Assert("C18.timing.restart_goes_back_to_first_schedule",
+				!(zz.Happened("fn.slow", k) && zz.Happened("restart.processed", j) && zz.Before("restart.processed", "fn.slow", j, k)) ||
+					zz.NotBefore("restart.processed", "fn.slow", j, k, time.Minute))
+		}
+	}
+}
